@@ -539,7 +539,13 @@ pub fn c19(cx: &RunCtx) {
             engine: "E-TREE round trip f64".into(),
             bins: ops(&[Add, Sub, Mul, Div, Pow]),
             uns: vec![UnOp::Neg, UnOp::Call(refmodel::vocab::Func::Sqrt)],
-            pool: crate::tchecks::pool_f64(),
+            pool: {
+                let mut p = crate::tchecks::pool_f64();
+                for v in [5e-324, 1.5e-323, f64::MIN_POSITIVE, 2.2250738585072009e-308, 1e-310, 3e-320, 1.7976931348623157e308, 1e-292] {
+                    p.push(Leaf::at(v));
+                }
+                p
+            },
             pool3: vec![],
             depth,
             kinds: &none,
@@ -596,7 +602,18 @@ pub fn c19(cx: &RunCtx) {
             engine: "E-TREE round trip complex".into(),
             bins: ops(&[Add, Sub, Mul, Div]),
             uns: vec![UnOp::Neg, UnOp::Call(refmodel::vocab::Func::Sqrt)],
-            pool: crate::cchecks::pool_cpx(),
+            pool: {
+                // the generic values plus components at both ends of the exponent range (subnormals, the
+                // smallest normal, MAX), whose exponent-free Display forms are the longest there are
+                let mut p = crate::cchecks::pool_cpx();
+                for v in Cpx::pool_full() {
+                    p.push(Leaf::at(v));
+                }
+                for (a, b) in [(5e-324, 1.5e-323), (f64::MIN_POSITIVE, -2.2250738585072009e-308), (1e-310, 1.0), (-1.0, 3e-320), (1.7976931348623157e308, -1e-300), (1e300, 1e-292), (4.9e-324, -0.0)] {
+                    p.push(Leaf::at(num_complex::Complex::new(a, b)));
+                }
+                p
+            },
             pool3: vec![],
             depth,
             kinds: &none,
